@@ -330,15 +330,29 @@ example :
     `block_size() = (2^depth, 64·2^depth)` blocks are admissible -/
 example (depth : Nat) (h : depth ≤ 4) : (rustShapeDec depth).WF := rustShapeDec_wf depth h
 example (depth : Nat) (h : depth ≤ 4) : (rustShapeInt depth).WF := rustShapeInt_wf depth h
-example (x : List Int) (hg : 16 ∣ x.length) (hm : x.length ≤ 1024) : (rustShapeDec 4).Adm x := by
-  simp only [HbfDecCascade.Adm, HbfDecCascade.active, List.map_reverse, List.map_take, rustShapeDec_blockMax]
-  simp [decAdmL, rustShapeDec]
-  omega
+/-- the hypotheses of `hbfdec_cascade_adm_of_block_size` hold for the Rust shape at depth 4 -/
+example (x : List Int) (hg : 2 ^ 4 ∣ x.length) (hm : x.length ≤ 1024) : (rustShapeDec 4).Adm x := by
+  apply hbfdec_cascade_adm_of_block_size (rustShapeDec 4) (rustShapeDec_wf 4 (by omega)) _ x hg
+  · intro _
+    simpa [rustShapeDec, HbfDec.blockMax, HbfDec.new, SymFir.new, -List.reduceReplicate] using hm
+  · intro j hj
+    have hj' : j + 1 < 4 := hj
+    match j, hj' with
+    | 0, _ => simp [rustShapeDec, HbfDec.blockMax, HbfDec.new, SymFir.new, -List.reduceReplicate]
+    | 1, _ => simp [rustShapeDec, HbfDec.blockMax, HbfDec.new, SymFir.new, -List.reduceReplicate]
+    | 2, _ => simp [rustShapeDec, HbfDec.blockMax, HbfDec.new, SymFir.new, -List.reduceReplicate]
 example (x : List Int) : (rustShapeDec 0).Adm x := by
   simp [HbfDecCascade.Adm, HbfDecCascade.active, rustShapeDec, decAdmL]
-example (x : List Int) (hm : x.length * 16 ≤ 1024) : (rustShapeInt 4).Adm x := by
-  simp only [HbfIntCascade.Adm, HbfIntCascade.active, List.map_take, rustShapeInt_blockMax]
-  simp [intAdmL, rustShapeInt]
-  omega
+/-- the hypotheses of `hbfint_cascade_adm_of_block_size` hold for the Rust shape at depth 4 -/
+example (x : List Int) (hm : x.length * 2 ^ 4 ≤ 1024) : (rustShapeInt 4).Adm x := by
+  apply hbfint_cascade_adm_of_block_size (rustShapeInt 4) (rustShapeInt_wf 4 (by omega)) _ x
+  · intro _
+    simpa [rustShapeInt, HbfInt.blockMax, HbfInt.new, SymFir.new, -List.reduceReplicate] using hm
+  · intro j hj
+    have hj' : j + 1 < 4 := hj
+    match j, hj' with
+    | 0, _ => simp [rustShapeInt, HbfInt.blockMax, HbfInt.new, SymFir.new, -List.reduceReplicate]
+    | 1, _ => simp [rustShapeInt, HbfInt.blockMax, HbfInt.new, SymFir.new, -List.reduceReplicate]
+    | 2, _ => simp [rustShapeInt, HbfInt.blockMax, HbfInt.new, SymFir.new, -List.reduceReplicate]
 
 end Idsp
